@@ -218,6 +218,9 @@ def enumerate_stops(ctx, conf, tmpdir):
                     ctx.count("stops_requested_by_an_observer_thread")
                 if (k + j) % 4 == 1:
                     case["start_order"] = "tokenizer-first"
+                elif (k + j) % 4 == 2:
+                    case["start_order"] = ("saver-last", "tokenizer-first+saver-last")[(k // 4) % 2]
+                    ctx.count("runs_whose_saver_thread_started_after_the_tokenizer")
                 case["strategy"] = P.S.NAMES[(k + j) % len(P.S.NAMES)]
                 case["sched_seed"] = rng.getrandbits(32)
                 case["timeout_budget"] = rng.choice((0, 3, 10, 50))
